@@ -323,14 +323,14 @@ def run(run):
         run.require(F.unknown == 0, 'unknown AST nodes')
         E = effects.Effects(F)
         run.count('fact units')
-        bit_width(run, F)
-        stream_rules(run, F, E, semantic[v])
+        run.guard('bit width', bit_width, run, F)
+        run.guard('stream rules', stream_rules, run, F, E, semantic[v])
         facts.drop(F)
         cfgmod.clear_cache()
-    static_units.report(run, 'C13.a', 'ubitwidth')
-    static_units.report(run, 'C13.e', static_units.capacity_unit('C13.e'))
+    run.guard('report', static_units.report, run, 'C13.a', 'ubitwidth')
+    run.guard('report', static_units.report, run, 'C13.e', static_units.capacity_unit('C13.e'))
     from gen import nfamily
-    nfamily.report(run, run.tier, 'C12.b')
+    run.guard('report', nfamily.report, run, run.tier, 'C12.b')
     # the N-family obligations used here are the "bit width suffices for the state count" clause
     run.floor('C13.a', 2)
     run.floor('C13.b', 20)
